@@ -5,7 +5,7 @@ Everything here is dual mode (pyvc.speclib): the same definitions are evaluated 
 exact rationals by the native bounded checks and on z3 terms by the VC generator.
 """
 from fractions import Fraction
-from pyvc.speclib import memo, define, as_seq
+from pyvc.speclib import memo, define, define_over, as_seq
 from pyvc.speclib import (isum, rsum, cnt, ite, implies, iff, And, Or, Not, forall, exists, length, isin, sqrt, mkseq, mkset,
                           pow10, logb, absv, toreal, fdiv, maxv, minv, HAVE_Z3)
 
@@ -106,7 +106,7 @@ SPEC = dict(is_res=is_res, pattern_of=pattern_of, seq_inv=seq_inv,
 
 
 # ----------------------------------------------------------------------------- symbolic receiver
-def mk_sequence(alphabet='aa', dmax='any', prefix='self', nmin=1):
+def mk_sequence(alphabet='aa', dmax='any', prefix='self', nmin=1, sdm='opaque'):
     """builder of a symbolic Sequence object satisfying INV.
        alphabet: 'aa' (20 letters) | 'reduced' ('+','-','0' allowed too) | 'any'
        dmax:     'unset' (-1) | 'any' (symbolic real)"""
@@ -136,7 +136,12 @@ def mk_sequence(alphabet='aa', dmax='any', prefix='self', nmin=1):
             o.fields['dmax'] = -1
         else:
             o.fields['dmax'] = it.fresh(prefix + '.dmax', 'real')
-        o.fields['seqDeltaMax'] = case.get('seqDeltaMax', Opaque('seqDeltaMax'))
+        if sdm == 'none':
+            o.fields['seqDeltaMax'] = None
+        elif sdm == 'str':
+            o.fields['seqDeltaMax'] = it.fresh_seq(prefix + '.seqDeltaMax', 'str', 'char')
+        else:
+            o.fields['seqDeltaMax'] = case.get('seqDeltaMax', Opaque('seqDeltaMax'))
         o.fields['phosphosites'] = Opaque('phosphosites')
         o.fields['aminoAcidColorMap'] = Opaque('palette')
         o.fields['ComplexityObject'] = Obj(mod.SequenceComplexity, 'cx')
@@ -610,3 +615,31 @@ def nmov(frozen, j):
 
 
 SPEC.update(dict(nmov=nmov))
+
+
+# ----------------------------------------------------------------------------- C03.d: the returned permutant
+def n_sym(s, ch, lo, hi):
+    """number of positions lo <= j < hi holding the reduced-alphabet symbol ch"""
+    return cnt(lambda j: s[j] == ch, lo, hi)
+
+
+def attained(p, s, N, d):
+    """p is a candidate answer for "a sequence whose delta equals d": right length, residues only, same charge-class counts as s, delta == d"""
+    n = length(p)
+    return And(n == N, forall(lambda j: is_aa(p[j]), 0, n), npos(p, 0, n) == npos(s, 0, N), nneg(p, 0, n) == nneg(s, 0, N),
+               delta_spec(p, n) == d)
+
+
+def perm_ok(o, flag):
+    """cache invariant of the permutant: when it is recorded it attains the recorded delta-max"""
+    if flag is False:
+        return True
+    f = o.fields
+    sd = f['seqDeltaMax']
+    if sd is None:
+        return f['dmax'] == -1
+    return Or(f['dmax'] == -1, And(Not(is_none(sd)), attained(the(sd), f['seq'], f['len'], f['dmax'])))
+
+
+from pyvc.speclib import is_none, the
+SPEC.update(dict(n_sym=n_sym, attained=attained, perm_ok=perm_ok))
